@@ -98,6 +98,10 @@ func drawOp(t *rapid.T, ss *gen.SchemaSpec) c12Op {
 
 		op.payload = []byte(`{"data":[` + strings.Join(members, ",") + `]}`)
 
+		if rapid.IntRange(0, 3).Draw(t, "burst") == 0 {
+			op.reps = 20
+		}
+
 		// ... or the list is what the document includes (now and then a long
 		// one), next to no primary data.
 		if rapid.IntRange(0, 2).Draw(t, "asincluded") == 0 {
@@ -172,6 +176,12 @@ func runOp(schema *jsonapi.Schema, ss *gen.SchemaSpec, op c12Op, held *[]c12Held
 
 		return req.URL.String() + " " + hold(res, "doc "+c12Digest(res))
 	case "unmarshal-collection":
+		// (a burst first, when the operation has one: the same body many
+		// times in a row)
+		for i := 0; i < op.reps; i++ {
+			_, _ = jsonapi.UnmarshalDocument(op.payload, schema)
+		}
+
 		doc, err := jsonapi.UnmarshalDocument(op.payload, schema)
 		if err != nil {
 			return "error"
